@@ -91,6 +91,14 @@ type Exec struct {
 	skipAlloc map[*ssa.Alloc]PtrV            // locals with pre-assigned cells
 	onCall    func(st *State, callee *ssa.Function, args []Val) // observer of calls (E-SCAN ghost state)
 	curLabel  string                         // enclosing label (prefix of safety obligation sites)
+	// E-DRV mode
+	roTables    map[string]bool          // read-only package-level int arrays: element loads become uf_<name>(i)
+	constGlobal map[string]Val           // package-level scalars proved constant (cell key -> value)
+	skipStruct  map[*ssa.Alloc]*Term     // struct-typed locals with pre-assigned refs
+	closures    map[ssa.Value]*ssa.MakeClosure
+	ifaceImpl   map[string]*types.Named  // interface type name -> its unique in-module implementation (pointer receiver)
+	assumeReq   func(callee string, r *CExpr) bool // requires-clauses that are assumed (listed) instead of obliged
+	afterInstr  func(fc *frameCtx, st *State, in ssa.Instruction)
 }
 
 func newExec(w *World, fn *ssa.Function, props []string) *Exec {
@@ -470,6 +478,9 @@ func (x *Exec) loadLoc(s *State, p PtrV) Val {
 			ts[i] = tSelect(x.heapGet(s, p.Key+c.Suffix, arrSort(c.Sort)), p.Ref)
 		case "elem":
 			ts[i] = x.elemRead(tSelect(x.heapGet(s, p.Key+c.Suffix, arrSort(arrSort(c.Sort))), p.Ref), p, c.Sort)
+		case "rotable":
+			x.Sc.DeclareFun(p.Key, []string{SInt}, SInt)
+			ts[i] = mkApp(p.Key, SInt, p.Idx)
 		default:
 			oos("load through %s pointer", p.Kind)
 		}
